@@ -17,7 +17,8 @@ RULE = ('one document over the full tag vocabulary (merge-control tags and metad
         'scalar that needs quoting, or a dynamic node with metadata; distinct = hash of the case')
 BUDGET = {'quick': (4, 300), 'thorough': (16, 5000)}
 SHRINK_CAP = {'quick': 300, 'thorough': 3000}
-ASSUMPTIONS = ['the document is dumped as parsed (before preprocessing), re-parsed under the same file name',
+ASSUMPTIONS = ['besides random stages, one older stage is derived from the document itself (an extra entry in every container), so that the delete flag of every container shows',
+               'the document is dumped as parsed (before preprocessing), re-parsed under the same file name',
                'documents in which an aliased node is adopted by parents handing down different inherited flags are skipped (not expressible as text)',
                'evaluation is compared for documents without structural nodes (includes / !prev / !append need files or older stages)']
 
@@ -77,6 +78,23 @@ def _eval_outcome(tree):
     if st_ == 'ok':
         return ['ok', cmp_repr(res)]
     return ['err', type(res).__name__]
+
+
+def shadow(doc):
+    """An older stage shaped after the document: the same container paths, every mapping (also the arguments of function nodes) with one
+    extra key and every list with one extra element - merged below the document it shows, at every container, whether that container
+    replaces or combines (its delete flag), which the values of the document alone do not."""
+    anchors = {n['anchor']: n for _, n in tdoc.walk(doc) if n.get('anchor')}
+
+    def rec(n, depth=0):
+        if n['t'] == 'alias':
+            return rec(anchors[n['name']], depth + 1) if n['name'] in anchors and depth < 8 else tdoc.sc(0)
+        if n['t'] == 'map':
+            return tdoc.mp([(k, rec(v, depth + 1)) for k, v in n['items']] + [('zq', tdoc.sc(1))], flow=False)
+        if n['t'] == 'seq' and not str(n.get('tag', '')).startswith('!path'):
+            return tdoc.sq([rec(v, depth + 1) for v in n['items']] + [tdoc.sc(9)], flow=False)
+        return tdoc.sc(0)
+    return rec(doc)
 
 
 def classify(doc):
@@ -141,6 +159,13 @@ def run_case(case):
         ctx = '\nstages before:\n' + '\n'.join(pre) + '\nstages after:\n' + '\n'.join(post)
         raise Violation(f'C18: substituted in a merge sequence the re-parsed document gives {b}, the original {a}{src}{ctx}')
     if not case['structural']:
+        sh = [tdoc.render(shadow(case['doc']))]
+        a = _merge_outcome(sh, parse_one(text), [])
+        b = _merge_outcome(sh, parse_one(dumped), [])
+        if a != b:
+            raise Violation(f'C18: merged over an older stage that has an extra entry in every container, the re-parsed document gives {b}, '
+                            f'the original {a}{src}\nolder stage:\n{sh[0]}')
+        labels.add('shadow-' + a[0])
         e1, e2 = _eval_outcome(parse_one(text)), _eval_outcome(parse_one(dumped))
         if e1 != e2:
             raise Violation(f'C18: the re-parsed document evaluates to {e2}, the original to {e1}{src}')
